@@ -159,6 +159,9 @@ void harness(void) {
   if (kind == F_DHM) { ASSERT(d >= 1 && d <= 213503982ULL, "days field in [1, 2^64/86400e6]"); ASSERT(h < 24, "hours field < 24"); ASSERT(m < 60, "minutes field < 60"); }
   ASSERT(whole <= usecs && usecs - whole < 60 * US, "fields recompose: usecs - (days, hours, minutes) in [0, 60 s)");
 #else
-  ASSERT(rec[0].val == (double)(usecs - whole) / 1000000.0, "seconds value == remaining usecs / 10^6");
+  /* remaining microseconds written in the same shape as the definition (helps the SMT solver's congruence closure) */
+  uint64_t rest = MAG == 0 ? usecs : MAG == 1 ? usecs - m * 60000000ULL : MAG == 2 ? usecs - h * 3600000000ULL - m * 60000000ULL
+                                   : usecs - d * 86400000000ULL - h * 3600000000ULL - m * 60000000ULL;
+  ASSERT(rec[0].val == (double)rest / 1000000.0, "seconds value == remaining usecs / 10^6");
 #endif
 }
